@@ -30,25 +30,26 @@ import (
 // scenario / observation
 
 type scenario struct {
-	ID       int      `json:"id"`
-	Kind     string   `json:"kind"` // solo | multi
-	N        int      `json:"n"`
-	Files    int      `json:"files"`
-	Blocks   int      `json:"blocks"`
-	Rows     int      `json:"rows"` // rows per block
-	Bloom    bool     `json:"bloom"`
-	Match    string   `json:"match"`    // all | some
-	Meta     string   `json:"meta"`     // mem | fs
-	Engine   string   `json:"engine"`   // fresh | started | stopped
-	Consumer string   `json:"consumer"` // drain | take:<k> | stall
-	Pause    string   `json:"pause"`    // "" | kind#n
-	Actions  []string `json:"actions"`  // at the pause: cancel | close | close2
-	Fault    string   `json:"fault"`    // "" | kind#n
-	Corrupt  string   `json:"corrupt"`  // "" | f#b : a byte of that block's row data is flipped in the store
-	After    []string `json:"after"`    // after the first false: next | close | cancel
-	Queries  int      `json:"queries"`  // multi: concurrent queries
-	Stalled  int      `json:"stalled"`  // multi: how many of them never call Next
-	GateReads bool    `json:"gate_reads"`
+	ID        int      `json:"id"`
+	Kind      string   `json:"kind"` // solo | multi
+	N         int      `json:"n"`
+	Files     int      `json:"files"`
+	Blocks    int      `json:"blocks"`
+	Rows      int      `json:"rows"` // rows per block
+	Bloom     bool     `json:"bloom"`
+	Match     string   `json:"match"`    // all | some
+	Meta      string   `json:"meta"`     // mem | fs
+	Engine    string   `json:"engine"`   // fresh | started | stopped
+	Consumer  string   `json:"consumer"` // drain | take:<k> | stall
+	Pause     string   `json:"pause"`    // "" | kind#n
+	Actions   []string `json:"actions"`  // at the pause: cancel | close | close2
+	Fault     string   `json:"fault"`    // "" | kind#n
+	Corrupt   string   `json:"corrupt"`  // "" | f#b : a byte of that block's row data is flipped in the store
+	After     []string `json:"after"`    // after the first false: next | close | cancel
+	Queries   int      `json:"queries"`  // multi: concurrent queries
+	Stalled   int      `json:"stalled"`  // multi: how many of them never call Next
+	GateReads bool     `json:"gate_reads"`
+	Big       int      `json:"big"` // distinct tokens added to every block: filter sections of MiBs, so the region spans several chunks
 }
 
 type handleObs struct {
@@ -60,69 +61,69 @@ type handleObs struct {
 }
 
 type qobs struct {
-	Q            int      `json:"q"`
-	Nexts        int      `json:"nexts"`         // Next calls that returned true
-	Hung         bool     `json:"hung"`          // Next did not return false within the allowance
-	FirstFalse   int64    `json:"first_false"`   // seq of the first false return (0 = none)
-	ErrAtFalse   string   `json:"err_at_false"`  // nil | ctx | errs | other
-	ErrText      string   `json:"err_text"`
-	ErrLater     []string `json:"err_later"`     // Err() after each later step
-	NextLater    []bool   `json:"next_later"`    // Next() results after the first false
-	CloseRets    []string `json:"close_rets"`    // nil | err
-	CloseHung    bool     `json:"close_hung"`
-	CancelSeq    int64    `json:"cancel_seq"`
-	CloseCallSeq int64    `json:"close_call_seq"`
-	CloseRetSeq  int64    `json:"close_ret_seq"`
-	CanceledBeforeDecision bool `json:"canceled_before_decision"`
-	CancelDuringClose      bool `json:"cancel_during_close"`
-	ClosedEarly  bool     `json:"closed_early"` // Close was called before the first false
-	Promised     int      `json:"promised"`     // injected failures returned to the engine while the query was live
-	Reported     int      `json:"reported"`     // of those, how many errors.Is finds in Err
-	Injected     int      `json:"injected"`
-	Rows         []string `json:"-"`
-	Expect       []string `json:"-"`
-	RowsN        int      `json:"rows_n"`
-	ExpectN      int      `json:"expect_n"`
-	DupRows      int      `json:"dup_rows"` // returned more often than stored
-	Outside      int      `json:"outside"`  // returned but not matching
-	Missing      int      `json:"missing"`  // matching but not returned
-	Sample       []string `json:"sample"`
-	Alien        int      `json:"alien"`
-	RowNilAfter  bool     `json:"row_nil_after"`
-	IterOpenAtDone bool   `json:"iter_open_at_done"`
-	Stats        statsObs `json:"stats"`
-	Stalled      bool     `json:"stalled"`
-	CorruptScanned bool   `json:"corrupt_scanned"` // the corrupted block has a processed stats entry
+	Q                      int      `json:"q"`
+	Nexts                  int      `json:"nexts"`        // Next calls that returned true
+	Hung                   bool     `json:"hung"`         // Next did not return false within the allowance
+	FirstFalse             int64    `json:"first_false"`  // seq of the first false return (0 = none)
+	ErrAtFalse             string   `json:"err_at_false"` // nil | ctx | errs | other
+	ErrText                string   `json:"err_text"`
+	ErrLater               []string `json:"err_later"`  // Err() after each later step
+	NextLater              []bool   `json:"next_later"` // Next() results after the first false
+	CloseRets              []string `json:"close_rets"` // nil | err
+	CloseHung              bool     `json:"close_hung"`
+	CancelSeq              int64    `json:"cancel_seq"`
+	CloseCallSeq           int64    `json:"close_call_seq"`
+	CloseRetSeq            int64    `json:"close_ret_seq"`
+	CanceledBeforeDecision bool     `json:"canceled_before_decision"`
+	CancelDuringClose      bool     `json:"cancel_during_close"`
+	ClosedEarly            bool     `json:"closed_early"` // Close was called before the first false
+	Promised               int      `json:"promised"`     // injected failures returned to the engine while the query was live
+	Reported               int      `json:"reported"`     // of those, how many errors.Is finds in Err
+	Injected               int      `json:"injected"`
+	Rows                   []string `json:"-"`
+	Expect                 []string `json:"-"`
+	RowsN                  int      `json:"rows_n"`
+	ExpectN                int      `json:"expect_n"`
+	DupRows                int      `json:"dup_rows"` // returned more often than stored
+	Outside                int      `json:"outside"`  // returned but not matching
+	Missing                int      `json:"missing"`  // matching but not returned
+	Sample                 []string `json:"sample"`
+	Alien                  int      `json:"alien"`
+	RowNilAfter            bool     `json:"row_nil_after"`
+	IterOpenAtDone         bool     `json:"iter_open_at_done"`
+	Stats                  statsObs `json:"stats"`
+	Stalled                bool     `json:"stalled"`
+	CorruptScanned         bool     `json:"corrupt_scanned"` // the corrupted block has a processed stats entry
 }
 
 type statsObs struct {
-	Entries     int      `json:"entries"`
-	Dups        int      `json:"dups"`
-	Unknown     int      `json:"unknown"`
-	PartialFiles int     `json:"partial_files"` // files with some but not all candidate blocks accounted for
-	RowsMatched int64    `json:"rows_matched"`
-	SkippedNonZero int   `json:"skipped_nonzero"`
-	RowBlocksUnprocessed int `json:"row_blocks_unprocessed"`
-	Processed   int      `json:"processed"`
-	Skipped     int      `json:"skipped"`
-	TotalsOK    bool     `json:"totals_ok"`
+	Entries              int   `json:"entries"`
+	Dups                 int   `json:"dups"`
+	Unknown              int   `json:"unknown"`
+	PartialFiles         int   `json:"partial_files"` // files with some but not all candidate blocks accounted for
+	RowsMatched          int64 `json:"rows_matched"`
+	SkippedNonZero       int   `json:"skipped_nonzero"`
+	RowBlocksUnprocessed int   `json:"row_blocks_unprocessed"`
+	Processed            int   `json:"processed"`
+	Skipped              int   `json:"skipped"`
+	TotalsOK             bool  `json:"totals_ok"`
 }
 
 type obs struct {
-	ID        int         `json:"id"`
-	Sc        scenario    `json:"sc"`
-	Reached   bool        `json:"reached"` // the pause / fault position was reached
-	Qs        []qobs      `json:"qs"`
-	Handles   []handleObs `json:"handles"`
-	Opens     int         `json:"opens"`
-	InReadMax int         `json:"in_read_max"`
-	GateRounds int        `json:"gate_rounds"`
-	Leftover  int         `json:"leftover"` // query goroutines still alive after every query terminated (0/1)
-	ProbeHeld int         `json:"probe_held"`
-	ProbeWant int         `json:"probe_want"`
-	Panic     string      `json:"panic"`
-	Stdio     int         `json:"stdio"`
-	Infra     string      `json:"infra"`
+	ID         int         `json:"id"`
+	Sc         scenario    `json:"sc"`
+	Reached    bool        `json:"reached"` // the pause / fault position was reached
+	Qs         []qobs      `json:"qs"`
+	Handles    []handleObs `json:"handles"`
+	Opens      int         `json:"opens"`
+	InReadMax  int         `json:"in_read_max"`
+	GateRounds int         `json:"gate_rounds"`
+	Leftover   int         `json:"leftover"` // query goroutines still alive after every query terminated (0/1)
+	ProbeHeld  int         `json:"probe_held"`
+	ProbeWant  int         `json:"probe_want"`
+	Panic      string      `json:"panic"`
+	Stdio      int         `json:"stdio"`
+	Infra      string      `json:"infra"`
 }
 
 // ---------------------------------------------------------------------------
@@ -142,28 +143,28 @@ type hstate struct {
 }
 
 type ctl struct {
-	mu       sync.Mutex
-	seq      *atomic.Int64
-	counts   map[string]int // "q|kind" -> n
-	handleQ  map[int64]*hstate
-	order    []int64
-	pauseQ   int
-	pause    string
-	pauseCh  chan struct{}
-	arrived  chan struct{}
-	faultQ   int
-	fault    string
-	faultErr error
-	faultSeq int64 // seq at which the injected failure was returned to the engine
-	reached  bool
-	inRead   int
+	mu        sync.Mutex
+	seq       *atomic.Int64
+	counts    map[string]int // "q|kind" -> n
+	handleQ   map[int64]*hstate
+	order     []int64
+	pauseQ    int
+	pause     string
+	pauseCh   chan struct{}
+	arrived   chan struct{}
+	faultQ    int
+	fault     string
+	faultErr  error
+	faultSeq  int64 // seq at which the injected failure was returned to the engine
+	reached   bool
+	inRead    int
 	inReadMax int
-	opens    int
-	gate     bool
-	gateCh   chan struct{}
-	iterOpen map[int]int
-	activity atomic.Int64
-	probing  bool
+	opens     int
+	gate      bool
+	gateCh    chan struct{}
+	iterOpen  map[int]int
+	activity  atomic.Int64
+	probing   bool
 }
 
 func newCtl(seq *atomic.Int64) *ctl {
@@ -285,19 +286,19 @@ func (c *ctl) readers() int {
 // world: a store populated by the real engine
 
 type world struct {
-	sc      scenario
-	dir     string
-	mem     *h.MemData
-	rawData bs.DataStore
-	rawMeta bs.MetaStore
-	c       *ctl
-	data    *h.InstrData
-	meta    *h.InstrMeta
-	eng     *bs.BloomSearchEngine
-	expect  []string            // ids of the rows the query matches
-	blockOf map[string]string   // row id -> "ptr@offset"
-	blocks  map[string][]string // ptr -> candidate block keys ("ptr@offset")
-	seq     *atomic.Int64
+	sc         scenario
+	dir        string
+	mem        *h.MemData
+	rawData    bs.DataStore
+	rawMeta    bs.MetaStore
+	c          *ctl
+	data       *h.InstrData
+	meta       *h.InstrMeta
+	eng        *bs.BloomSearchEngine
+	expect     []string            // ids of the rows the query matches
+	blockOf    map[string]string   // row id -> "ptr@offset"
+	blocks     map[string][]string // ptr -> candidate block keys ("ptr@offset")
+	seq        *atomic.Int64
 	corruptKey string
 }
 
@@ -310,8 +311,36 @@ func cfgFor(n int) bs.BloomSearchEngineConfig {
 	return cfg
 }
 
+// populated in-memory stores are built once per shape and restored for every scenario of that shape
+type savedWorld struct {
+	files   map[string][]byte
+	metas   map[string]bs.FileMetadata
+	expect  []string
+	blockOf map[string]string
+	blocks  map[string][]string
+}
+
+var saved = map[string]*savedWorld{}
+
+func shapeKey(sc scenario) string {
+	return fmt.Sprintf("%d|%d|%d|%v|%s|%d", sc.Files, sc.Blocks, sc.Rows, sc.Bloom, sc.Match, sc.Big)
+}
+
 func buildWorld(sc scenario, scratch string) (*world, error) {
 	w := &world{sc: sc, blockOf: map[string]string{}, blocks: map[string][]string{}, seq: &atomic.Int64{}}
+	if sv := saved[shapeKey(sc)]; sv != nil && sc.Meta != "fs" {
+		w.mem = h.NewMemData()
+		mm := bs.NewMemoryMetaStore()
+		for ptr, data := range sv.files {
+			w.mem.PutAs(ptr, data)
+			md := sv.metas[ptr]
+			md.DataBlocks = append([]bs.DataBlockMetadata(nil), md.DataBlocks...)
+			mm.Update(context.Background(), []bs.WriteOperation{{FileMetadata: &md, FilePointerBytes: []byte(ptr)}}, nil)
+		}
+		w.rawData, w.rawMeta = w.mem, mm
+		w.expect, w.blockOf, w.blocks = sv.expect, sv.blockOf, sv.blocks
+		return finishWorld(w, sc)
+	}
 	if sc.Meta == "fs" {
 		w.dir = fmt.Sprintf("%s/q%d", scratch, sc.ID)
 		os.MkdirAll(w.dir, 0o755)
@@ -322,7 +351,15 @@ func buildWorld(sc scenario, scratch string) (*world, error) {
 		w.rawData, w.rawMeta = w.mem, bs.NewMemoryMetaStore()
 	}
 	// populate with a plain engine over the raw stores
-	pe, err := bs.NewBloomSearchEngine(cfgFor(4), w.rawMeta, w.rawData)
+	pcfg := cfgFor(4)
+	if sc.Big > 0 {
+		// many distinct entries at a tiny false-positive rate: every block's filter section is MiBs, so a file's block
+		// filter region exceeds the reader's 4 MiB chunk cap and the filter pass needs several chunk reads
+		pcfg.BloomFalsePositiveRate = 1e-9
+		pcfg.MaxBufferedBytes = 1 << 30
+		pcfg.MaxRowGroupBytes = 1 << 30
+	}
+	pe, err := bs.NewBloomSearchEngine(pcfg, w.rawMeta, w.rawData)
 	if err != nil {
 		return nil, err
 	}
@@ -338,6 +375,13 @@ func buildWorld(sc scenario, scratch string) (*world, error) {
 				row := map[string]any{"id": id, "p": fmt.Sprintf("p%d", b), "pad": strings.Repeat("x", 8)}
 				if has {
 					row["m"] = "yes"
+				}
+				if sc.Big > 0 && r == 1 {
+					var sb strings.Builder
+					for t := 0; t < sc.Big; t++ {
+						fmt.Fprintf(&sb, "f%db%dt%d ", f, b, t)
+					}
+					row["big"] = sb.String()
 				}
 				if has || !sc.Bloom {
 					w.expect = append(w.expect, id)
@@ -399,6 +443,25 @@ func buildWorld(sc scenario, scratch string) (*world, error) {
 		}
 		rd.Close()
 	}
+	sort.Strings(w.expect)
+	if w.mem != nil {
+		sv := &savedWorld{files: map[string][]byte{}, metas: map[string]bs.FileMetadata{}, expect: w.expect, blockOf: w.blockOf, blocks: w.blocks}
+		for mf, err := range w.rawMeta.GetMaybeFilesForQuery(ctx, nil) {
+			if err != nil {
+				return nil, err
+			}
+			data, _ := w.mem.Bytes(string(mf.PointerBytes))
+			sv.files[string(mf.PointerBytes)] = data
+			sv.metas[string(mf.PointerBytes)] = mf.Metadata
+		}
+		saved[shapeKey(sc)] = sv
+	}
+	return finishWorld(w, sc)
+}
+
+func finishWorld(w *world, sc scenario) (*world, error) {
+	ctx := context.Background()
+	var err error
 	if sc.Corrupt != "" {
 		if err := w.corrupt(sc.Corrupt); err != nil {
 			return nil, err
@@ -1097,6 +1160,8 @@ func generate(tier string, seed int64, scratch string, guard *h.StdioGuard) []sc
 		{N: 1, Files: 2, Blocks: 3, Rows: 5, Bloom: true, Match: "some"},
 		{N: 3, Files: 3, Blocks: 2, Rows: 130, Bloom: false, Match: "all"},
 	}
+	// a file whose block filter region spans several chunk reads (6 blocks x ~1.5 MiB of filters)
+	shapes = append(shapes, scenario{N: 2, Files: 1, Blocks: 6, Rows: 2, Bloom: true, Match: "some", Big: 130000})
 	if tier == "thorough" {
 		shapes = append(shapes,
 			scenario{N: 2, Files: 3, Blocks: 3, Rows: 300, Bloom: true, Match: "some"},
